@@ -440,6 +440,19 @@ pub fn big_whole_inputs(tier: &str) -> Vec<Built> {
         .collect()
 }
 
+/// the same medium graphs with weights 1, 2 and, on every fifth edge, +infinity (total weight infinite, gains
+/// towards a community holding an infinite edge are NaN): for reproducibility checks only
+pub fn infinite_weight_inputs(tier: &str) -> Vec<Built> {
+    medium_inputs(tier)
+        .into_iter()
+        .filter(|b| b.case.starts_with("custom:gnpulp"))
+        .map(|b| {
+            let es: Vec<(usize, usize, f64)> = b.edges.iter().map(|e| (e.0, e.1, if (e.0 * 3 + e.1) % 5 == 0 { f64::INFINITY } else { 1.0 + ((e.0 + e.1) % 2) as f64 })).collect();
+            build_custom(b.kind, b.n, &es, &b.case.replace("custom:gnpulp", "gnpinf"))
+        })
+        .collect()
+}
+
 /// Newman modularity in f64 for graphs beyond 32 nodes (integer weights, so sums are exact)
 fn newman_q(edges: &[(usize, usize, f64)], directed: bool, comm_of: &[usize], ncomm: usize, weighted: bool, gamma: f64) -> f64 {
     let w = |e: &(usize, usize, f64)| if weighted { e.2 } else { 1.0 };
